@@ -115,6 +115,17 @@ fn main() {
                 }
             }
         }
+        // stack-heavy trees (nested scopes that pop below snapshot lines), empty input
+        "stack" => {
+            let count = arg_u64(2, 1000); let mut rng = Rng::new(arg_u64(3, 0));
+            for _ in 0..count {
+                let d = rng.range(3, 9) as u32;
+                // a few initial pushes so that there is something below the first snapshot
+                let mut p = gen_stack(&mut rng, d);
+                for lit in ["a", "b", "c"].iter().take(rng.below(4) as usize) { p = Prog::Then(Box::new(Prog::PushLit(lit.to_string())), Box::new(p)); }
+                emit(&Case { lim: None, det: false, input: String::new(), env: vec![], prog: p }, &mut w);
+            }
+        }
         // exhaustive small trees x all short inputs
         "small" => {
             let maxlen = arg_u64(2, 3) as usize;
@@ -148,7 +159,7 @@ fn main() {
                 emit(&Case { lim: None, det: false, input: input.clone(), env: vec![], prog: p.clone() }, &mut w);
             } }
         }
-        _ => { eprintln!("usage: comb one CASE | random COUNT SEED [DEPTH] | small MAXLEN"); std::process::exit(2); }
+        _ => { eprintln!("usage: comb one CASE | random COUNT SEED [DEPTH] | stack COUNT SEED | small MAXLEN"); std::process::exit(2); }
     }
     writeln!(w, "#SUMMARY\tevaluations={}\tdistinct_nontrivial={}\tok={}\tpanics={}\tdiverged={}", n, nontriv, oks, panics, diverged).unwrap();
 }
